@@ -78,7 +78,8 @@ Section RunId.
 
   Inductive iop :=
   | IBase (o : @op N)
-  | IShare (i : nat) (p1 p2 : list nat).   (* install the object at p1 also at p2 *)
+  | IShare (i : nat) (p1 p2 : list nat)    (* install the object at p1 also at p2 *)
+  | IGraft (i : nat) (p : list nat).       (* a new Branch(pool i, the object at p inside pool i) *)
 
   Definition push (w : world) (a : agg) : world * itree :=
     let '(t, n') := fresh_like a (nxt w) in
@@ -96,6 +97,17 @@ Section RunId.
             let t' := put_it t p2 xt in
             let w' := {| nxt := nxt w; pl := seti (pl w) i (a', t') |} in
             (w', obs 0 a' w')
+        | _, _ => (w, [9])
+        end
+    | IGraft i p =>
+        (* the constructor keeps the objects it is given: the new root aliases pool entry i *)
+        let '(a, t) := geti w i in
+        match sub_agg a p, sub_it t p with
+        | Some xa, Some xt =>
+            let root := Node KBranch no_quantity nzero [a; xa] [] None "" in
+            let rt := IT (nxt w) (Pos.succ (nxt w)) [t; xt] [] None in
+            let w' := {| nxt := Pos.succ (Pos.succ (nxt w)); pl := pl w ++ [(root, rt)] |} in
+            (w', obs 0 root w')
         | _, _ => (w, [9])
         end
     | IBase (ONew a) => let '(w', _) := push w a in (w', obs 0 a w')
